@@ -208,6 +208,13 @@ carquet_status_t carquet_statistics_add_values(
         return CARQUET_ERROR_INVALID_ARGUMENT;  /* Use byte array API */
     }
 
+    if (value_size > sizeof(builder->min_value)) {
+        /* Values do not fit the min/max buffers: count them, emit no min/max */
+        builder->min_max_invalid = true;
+        builder->num_values += num_values;
+        return CARQUET_OK;
+    }
+
     const uint8_t* data = (const uint8_t*)values;
 
     for (int64_t i = 0; i < num_values; i++) {
